@@ -166,7 +166,7 @@ def _propose(rng, T, O, names, nout):
     return ["moveout", j(p), f"z{nout}"]
 
 
-def random_history(seed, length, names=("a", "b", "c", "d", "e", "f"), maxdepth=4):
+def random_history(seed, length, names=("a", "ab", "b", "abc", "c", "d"), maxdepth=4):   # names that are character prefixes of each other
     """Seeded random history that is executable and respects the pacing condition: every proposed operation is accepted
     only if checks/history_check.py (the mirror of FsKernel.PacingOK, cross-checked against the TLC histories) accepts it."""
     from checks import history_check as hc
@@ -294,6 +294,10 @@ def validate(c: checklib.Check, prop, recs, *, sig_fn=None):
         c.note(f"traces failing clauses owned by other properties (decided by their checks): {foreign}")
     if recs:
         c.sample({"history": recs[0]["params"]["ops"], "timing": recs[0]["spec"], "trace": recs[0]["trace"][:10]})
+
+
+PREFIX_NAMES = {"a": "x", "b": "xy"}   # on-disk spellings for the logical names of the TLC histories: one is a
+                                         # character prefix of the other (path-prefix tests must compare components)
 
 
 def timings(seed, n_random=2, n_pct=1):
